@@ -25,8 +25,9 @@ package migration
 import (
 	"context"
 	"encoding/json"
-	"errors"
+	"flag"
 	"fmt"
+	"io"
 	"math/rand"
 	"sort"
 	"strconv"
@@ -41,6 +42,7 @@ import (
 	"k8s.io/apimachinery/pkg/types"
 	"k8s.io/client-go/tools/events"
 	"k8s.io/client-go/tools/record"
+	"k8s.io/klog/v2"
 	fakeclock "k8s.io/utils/clock/testing"
 	ctrl "sigs.k8s.io/controller-runtime"
 	"sigs.k8s.io/controller-runtime/pkg/client"
@@ -106,6 +108,12 @@ func c17Setup() {
 		panic(err)
 	}
 	c17Args = &args
+	// the controller logs every failed reconcile: keep the test output readable
+	fs := flag.NewFlagSet("klog", flag.ContinueOnError)
+	klog.InitFlags(fs)
+	_ = fs.Set("logtostderr", "false")
+	_ = fs.Set("stderrthreshold", "FATAL")
+	klog.SetOutput(io.Discard)
 	b := record.NewBroadcaster()
 	c17Recorder = record.NewEventRecorderAdapter(b.NewRecorder(c17Scheme, corev1.EventSource{Component: Name}))
 }
@@ -133,7 +141,7 @@ type c17World struct {
 
 type c17Stats struct {
 	segs, steps, reconciles, envApplied, envSkipped, faultsHit, restarts, ticks int
-	evictRuns, evictCalls, evictFailed, preemptEvicts                           int
+	evictRuns, evictFailed, preemptEvicts                                       int
 	reasons                                                                     map[string]int
 	succeeded                                                                   int
 	calls                                                                       map[string]int
@@ -411,6 +419,14 @@ func (w *c17World) call(kind string, ok bool, r, p vu.Ev, arg vu.Ev) {
 	}
 	w.calls = append(w.calls, e)
 	w.st.calls[kind]++
+	if kind == "Evict" {
+		if !ok {
+			w.st.evictFailed++
+		}
+		if r["phase"] == "Failed" {
+			w.st.preemptEvicts++
+		}
+	}
 }
 
 // ---------------------------------------------------------------------------------------------- recording fakes
@@ -722,42 +738,62 @@ func c17RandomRun(rec *vu.Recorder, st *c17Stats, rng *rand.Rand, steps int) {
 			}
 			continue
 		}
-		// an environment event that is legal now
+		// an environment event that is legal now (weights only steer the run towards deeper protocol states)
 		r := w.getResv()
+		evicting := w.jobObs()["cEvict"] == "False:Evicting"
 		var cand []c17Step
+		add := func(n int, s c17Step) {
+			for ; n > 0; n-- {
+				cand = append(cand, s)
+			}
+		}
 		if r != nil {
 			switch {
 			case c17IsPendingPhase(r):
-				cand = append(cand, c17Step{Op: "rsched", Node: otherNode()}, c17Step{Op: "rsched", Node: otherNode()},
-					c17Step{Op: "rsched", Node: otherNode()}, c17Step{Op: "rsched", Node: node()},
-					c17Step{Op: "runsched", Hard: true}, c17Step{Op: "rexpire"})
+				add(5, c17Step{Op: "rsched", Node: otherNode()})
+				add(1, c17Step{Op: "rsched", Node: node()})
+				add(1, c17Step{Op: "runsched", Hard: true})
+				add(1, c17Step{Op: "rexpire"})
 				if !c17HasUnsched(r) {
-					cand = append(cand, c17Step{Op: "runsched"})
+					add(1, c17Step{Op: "runsched"})
 				}
 				if w.preempt {
-					cand = append(cand, c17Step{Op: "runsched", Hard: true, Np: true}, c17Step{Op: "runsched", Hard: true, Np: true})
+					add(3, c17Step{Op: "runsched", Hard: true, Np: true})
 				}
 			case reservationutil.IsReservationAvailable(r):
-				cand = append(cand, c17Step{Op: "rbind", Who: "other"}, c17Step{Op: "rbind", Who: "other"}, c17Step{Op: "rexpire"})
-				if p := w.getPod(); p != nil && c17UID(p.UID) > 1 && p.Spec.NodeName == r.Status.NodeName {
-					cand = append(cand, c17Step{Op: "rbind", Who: "same"}, c17Step{Op: "rbind", Who: "same"})
+				add(1, c17Step{Op: "rexpire"})
+				add(1, c17Step{Op: "rbind", Who: "other"})
+				p := w.getPod()
+				if evicting && p == nil {
+					add(6, c17Step{Op: "rbind", Who: "other"})
+				}
+				if p != nil && c17UID(p.UID) > 1 && p.Spec.NodeName == r.Status.NodeName {
+					add(4, c17Step{Op: "rbind", Who: "same"})
 				}
 			case r.Status.Phase == sev1alpha1.ReservationFailed && r.Annotations[c17NeedPreempt] == "true" && r.Annotations[c17PreemptDone] != "true":
-				cand = append(cand, c17Step{Op: "rpreempted"}, c17Step{Op: "rpreempted"}, c17Step{Op: "rpreempted"})
+				add(6, c17Step{Op: "rpreempted"})
 			}
-			cand = append(cand, c17Step{Op: "rdelete"})
+			if rng.Intn(3) == 0 {
+				add(1, c17Step{Op: "rdelete"})
+			}
 		}
 		if p := w.getPod(); p != nil {
-			cand = append(cand, c17Step{Op: "poddelete"}, c17Step{Op: "poddelete"})
+			add(1, c17Step{Op: "poddelete"})
+			if evicting {
+				add(6, c17Step{Op: "poddelete"})
+			}
 			if !c17PodObs(p)["ready"].(bool) {
-				cand = append(cand, c17Step{Op: "podready"}, c17Step{Op: "podready"})
+				add(3, c17Step{Op: "podready"})
 			}
 		}
 		rn := node()
 		if r != nil && r.Status.NodeName != "" && rng.Intn(2) == 0 {
 			rn = r.Status.NodeName // a replacement that lands where the reservation is
 		}
-		cand = append(cand, c17Step{Op: "podreplace", Node: rn, Ready: rng.Intn(2) == 0})
+		add(1, c17Step{Op: "podreplace", Node: rn, Ready: rng.Intn(2) == 0})
+		if evicting {
+			add(2, c17Step{Op: "podreplace", Node: rn, Ready: rng.Intn(2) == 0})
+		}
 		if rng.Intn(25) == 0 {
 			// now and then an event that is NOT legal now: must be recorded as not applied
 			cand = []c17Step{{Op: "rbind", Who: "same"}, {Op: "rpreempted"}, {Op: "rsched", Node: node()}, {Op: "podready"}}
@@ -833,7 +869,7 @@ func TestVerifC17(t *testing.T) {
 	}
 	sort.Strings(cs)
 	fmt.Printf("C17-STATS scripts=%d segments=%d steps=%d reconciles=%d faults_hit=%d env_applied=%d env_skipped=%d ticks=%d restarts=%d "+
-		"runs_reaching_evict=%d succeeded=%d failed_by{%s} calls{%s}\n", nscripts, st.segs, st.steps, st.reconciles, st.faultsHit,
-		st.envApplied, st.envSkipped, st.ticks, st.restarts, st.evictRuns, st.succeeded, strings.Join(rs, " "), strings.Join(cs, " "))
-	_ = errors.New
+		"runs_reaching_evict=%d evicts_after_preemption=%d evict_requests_failed=%d succeeded=%d failed_by{%s} calls{%s}\n", nscripts, st.segs, st.steps,
+		st.reconciles, st.faultsHit, st.envApplied, st.envSkipped, st.ticks, st.restarts, st.evictRuns, st.preemptEvicts, st.evictFailed,
+		st.succeeded, strings.Join(rs, " "), strings.Join(cs, " "))
 }
